@@ -1,4 +1,83 @@
+import LdarModel.Model.Crew
 import LdarModel.Driver.Proto
-/- driver stub: replaced by the component's real driver -/
-open LdarModel.Proto
-def main : IO Unit := runDriver (fun (_ : Unit) (_ : List String) => ((), "bad-op")) ()
+/-
+Driver for the survey step / crew day model.
+  step <R> <S> <T> <P> <stationary> <workable> <inProgress> <travelSoFar>
+     -> <rem> <surveyed> <complete> <last> <visited> <travel> <today> | <report: surveyed today travel complete inProgress>
+  multi <S> <stationary> [[R,T,workable,served],...]
+     -> per day  surveyed:today:travel:complete:inProgress:minutesToday  joined by ;
+  day <scale> <stationary> <perSite> <unitCost> <budget> <crews> <considerWeather>
+      [tLo,tHi,wLo,wHi,pLo,pHi] [[site,S,P,inProgress,travelSoFar,T,siteCost,temp,wind,precip],...]
+     -> <cost> <visited> <travel> <survey> <wpTravel>
+        | site:crew:surveyed:today:travel:complete:inProgress:visited:last:travelCharged;...
+        | id:rem:deployed:spent:home,...
+  budget <considerDaylight> <workdayH> <daylightH>  -> <minutes>
+-/
+open LdarModel LdarModel.Crew LdarModel.Proto
+
+def showReport (r : Report) (sep : String) : String :=
+  sep.intercalate [toString r.surveyed, toString r.today, toString r.travel, showBool r.complete, showBool r.inProgress]
+
+def parseDayIn (s : String) : Option DayIn := do
+  match ← intList? s with
+  | [r, t, w, sv] => some { R := r, T := t, workable := w ≠ 0, served := sv ≠ 0 }
+  | _ => none
+
+def parseReq (s : String) : Option Req := do
+  match ← intList? s with
+  | [site, sS, p, ip, trav, t, sc, wt, ww, wp] =>
+    if site < 0 then none else
+    some { site := site.toNat, S := sS, siteCost := sc,
+           rep := { surveyed := p, travel := trav, inProgress := ip ≠ 0 }, T := t,
+           wx := { temp := wt, wind := ww, precip := wp } }
+  | _ => none
+
+def parseEnv (s : String) : Option Envelope := do
+  match ← intList? s with
+  | [a, b, c, d, e, f] => some { tempLo := a, tempHi := b, windLo := c, windHi := d, precipLo := e, precipHi := f }
+  | _ => none
+
+def runMulti (stationary : Bool) (S : Int) (days : List DayIn) : List String :=
+  (days.foldl (fun (acc : Report × List String) d =>
+      let x := surveyDay stationary S acc.1 d
+      (x.1, (showReport x.1 ":" ++ ":" ++ toString x.2) :: acc.2)) (({} : Report), [])).2.reverse
+
+def showOut (o : OutRec) : String :=
+  let crew := match o.crew with | none => "-" | some c => toString c
+  let (vis, last, tr) := match o.step with
+    | none => (false, false, (0 : Int))
+    | some s => (s.visited, s.last, s.travel)
+  s!"{o.req.site}:{crew}:{showReport o.rep ":"}:{showBool vis}:{showBool last}:{tr}"
+
+def showCrew (c : CrewSt) : String :=
+  s!"{c.id}:{c.rem}:{showBool c.deployed}:{c.spent}:{c.home}"
+
+def step (_ : Unit) (toks : List String) : Unit × String :=
+  match toks with
+  | ["step", r, s, t, p, st, w, ip, trav] =>
+    match int? r, int? s, int? t, int? p, bool? st, bool? w, bool? ip, int? trav with
+    | some r, some s, some t, some p, some st, some w, some ip, some trav =>
+      let o := surveyStep r s t p st w
+      let rep := applyStep { surveyed := p, travel := trav, inProgress := ip } o
+      ((), s!"{o.rem} {o.surveyed} {showBool o.complete} {showBool o.last} {showBool o.visited} {o.travel} {o.today} | {showReport rep " "}")
+    | _, _, _, _, _, _, _, _ => ((), "bad-op")
+  | ["multi", s, st, days] =>
+    match int? s, bool? st, listOf? parseDayIn days with
+    | some s, some st, some days => ((), ";".intercalate (runMulti st s days))
+    | _, _, _ => ((), "bad-op")
+  | ["day", sc, st, ps, uc, b, n, cw, env, reqs] =>
+    match nat? sc, bool? st, bool? ps, int? uc, int? b, nat? n, bool? cw, parseEnv env, listOf? parseReq reqs with
+    | some sc, some st, some ps, some uc, some b, some n, some cw, some env, some reqs =>
+      let p : MethodP := { stationary := st, perSite := ps, unitCost := uc, considerWeather := cw, env := env, scale := sc }
+      let d := deployDay p b n reqs
+      let s := d.stats
+      ((), s!"{s.cost} {s.visited} {s.travel} {s.survey} {s.wpTravel} | " ++ ";".intercalate (d.out.map showOut)
+           ++ " | " ++ ",".intercalate (d.crews.map showCrew))
+    | _, _, _, _, _, _, _, _, _ => ((), "bad-op")
+  | ["budget", c, w, d] =>
+    match bool? c, int? w, int? d with
+    | some c, some w, some d => ((), toString (dayBudget c w d))
+    | _, _, _ => ((), "bad-op")
+  | _ => ((), "bad-op")
+
+def main : IO Unit := runDriver step ()
